@@ -2,4 +2,5 @@
 EXTENDS Bind
 SpecInit == Spec(InitScenarios(MaxStr))
 SpecRecv == Spec(RecvScenarios(MaxStr))
+SpecShared == SharedSpec(NSess)
 =============================================================================
